@@ -52,6 +52,18 @@ class Interner:
         str(SH.ClosedConstraintComponent): 50,
         str(SH.SPARQLConstraintComponent): 51,
         str(SH.ExpressionConstraintComponent): 52,
+        str(SH.result): 60,
+        str(SH.focusNode): 61,
+        str(SH.value): 62,
+        str(SH.resultPath): 63,
+        str(SH.sourceShape): 64,
+        str(SH.sourceConstraintComponent): 65,
+        str(SH.resultSeverity): 66,
+        str(SH.resultMessage): 67,
+        str(SH.detail): 68,
+        str(SH.conforms): 69,
+        str(SH.ValidationReport): 70,
+        str(SH.ValidationResult): 71,
     }
 
     def __init__(self):
